@@ -122,6 +122,15 @@ func c17build(g c17graph) (*ir.Module, []metadata.Definition) {
 		nm.Nodes = append(nm.Nodes, d.(metadata.Node))
 	}
 	m.NamedMetadataDefs["all"] = nm
+	// references from OUTSIDE the metadata sections, printed before them: attachments of a
+	// global, of a function and of a terminator.
+	first, last := defs[0].(metadata.MDNode), defs[len(defs)-1].(metadata.MDNode)
+	zg := m.NewGlobalDef("zzg", constant.NewInt(types.I32, 0))
+	zg.Metadata = append(zg.Metadata, &metadata.Attachment{Name: "ref", Node: first})
+	zf := m.NewFunc("zzf", types.Void)
+	zf.Metadata = append(zf.Metadata, &metadata.Attachment{Name: "ref", Node: last})
+	ret := zf.NewBlock("").NewRet(nil)
+	ret.Metadata = append(ret.Metadata, &metadata.Attachment{Name: "ref", Node: first})
 	return m, defs
 }
 
@@ -337,6 +346,16 @@ func c17one(c *fw.Check, g c17graph, llvm bool) {
 		rep("api/named-metadata", "api", "named metadata does not list the nodes by their IDs", "", text)
 		return
 	}
+	for _, w := range []string{
+		fmt.Sprintf("@zzg = global i32 0, !ref !%d\n", ids[0]),
+		fmt.Sprintf("define void @zzf() !ref !%d {\n", ids[len(ids)-1]),
+		fmt.Sprintf("\tret void, !ref !%d\n", ids[0]),
+	} {
+		if !strings.Contains(text, w) {
+			rep("api/attachment-reference", "api", "an attachment of a global / function / terminator does not print the ID of the node it points to; expected `"+strings.TrimSpace(w)+"`", "", text)
+			return
+		}
+	}
 	// second print is identical (IDs now assigned).
 	if t2 := m.String(); t2 != text {
 		rep("api/print-twice-differs", "api", "printing again changes metadata numbering", text, t2)
@@ -406,6 +425,7 @@ func c17one(c *fw.Check, g c17graph, llvm bool) {
 	// (4) LLVM on a covering subset: canonical forms of model text and API-printed text agree.
 	if llvm && fw.HaveLLVM() {
 		var b strings.Builder
+		fmt.Fprintf(&b, "@zzg = global i32 0, !ref !%d\ndefine void @zzf() !ref !%d {\n  ret void, !ref !%d\n}\n", ids[0], ids[len(ids)-1], ids[0])
 		fmt.Fprintf(&b, "!all = !{%s}\n", strings.Join(wantNamed, ", "))
 		for _, l := range defLines {
 			b.WriteString(l + "\n")
